@@ -143,7 +143,7 @@ def _body(case, ctx):
     if abs(float(eul.astype(np.float64).sum()) * vol - 1.0) > 32 * eps + 16 * ceps:
         raise Violation(f"unit spread from marker {m} integrates to {float(eul.astype(np.float64).sum()) * vol!r} != 1")
     # interpolation of constant / affine / position fields
-    lagout = np.zeros(n, dtype=real_t)
+    lagout = np.full(n, -55.5, dtype=real_t)  # re-used output buffer: interpolation overwrites whatever it holds
 
     def interp(field):
         with ctx.repo_call("interpolation kernel"):
